@@ -51,12 +51,22 @@ func (p *Program) term(v ssa.Value, depth int, coarse bool) string {
 		}
 		return x.Value.ExactString()
 	case *ssa.Parameter:
-		for i, pa := range x.Parent().Params {
-			if pa == x {
-				return fmt.Sprintf("Param#%d:%s", i, p.TypeStr(x.Type()))
+		// a parameter is named by its type, and by its rank among the parameters of that type when there are
+		// several: reordering the parameters of a function, or adding one of another type, does not rename it
+		ts := p.TypeStr(x.Type())
+		rank, same := 0, 0
+		for _, pa := range x.Parent().Params {
+			if p.TypeStr(pa.Type()) == ts {
+				if pa == x {
+					rank = same
+				}
+				same++
 			}
 		}
-		return "Param"
+		if same > 1 {
+			return fmt.Sprintf("Param#%d:%s", rank, ts)
+		}
+		return "Param:" + ts
 	case *ssa.FreeVar:
 		for i, fv := range x.Parent().FreeVars {
 			if fv == x {
